@@ -57,6 +57,8 @@ def value_eval(t, subst):
         return int(value_eval(t[1], subst))
     if op == 'call' and t[1] == 'abs' and len(t[2]) == 1:
         return abs(value_eval(t[2][0], subst))
+    if op == 'call' and t[1] == 'pow' and len(t[2]) in (2, 3):
+        return pow(*[value_eval(x, subst) for x in t[2]])
     if op in ('tuple', 'list'):
         return [value_eval(x, subst) for x in t[1:]]
     if op == 'cond':
@@ -328,6 +330,25 @@ def satisfiable(pc, extra=(), limit=200000):
     for t, pol in forms:
         _atoms(t, atoms)
     steps = [0]
+    # unit literals first (path conditions are mostly conjunctions of literals)
+    unit = {}
+    for t, pol in forms:
+        lit, val = t, pol
+        while isinstance(lit, tuple) and lit and lit[0] == 'not':
+            lit, val = lit[1], not val
+        if isinstance(lit, tuple) and lit and lit[0] in ('bool', 'cond'):
+            if lit[0] == 'bool' and ((lit[1] == 'and' and val) or (lit[1] == 'or' and not val)):
+                # conjunction required true / disjunction required false: every member is a unit
+                for x in lit[2]:
+                    forms.append((x, val))
+            continue
+        if lit is True or lit is False or lit is None:
+            if bool(lit) != val:
+                return False
+            continue
+        if lit in unit and unit[lit] != val:
+            return False
+        unit[lit] = val
 
     def status(asg):
         unknown = False
@@ -361,4 +382,4 @@ def satisfiable(pc, extra=(), limit=200000):
                 return True
             del asg[a]
         return False
-    return search(0, {})
+    return search(0, dict(unit))
